@@ -188,8 +188,8 @@ def classes():
 def prob_matches(prob, k, v):
     """does the problem carry the stated parameter (nvars=int is stored as a 1-tuple by the n-d problems)"""
     got = getattr(prob, k, '<missing>')
-    if k == 'nvars' and type(v) is int and type(got) is tuple:
-        return got == (v,)
+    if k in ('nvars', 'freq') and type(v) is int and type(got) is tuple:
+        return len(got) >= 1 and all(type(g) is int and g == v for g in got)
     return _val_eq(got, v)
 
 
@@ -226,8 +226,8 @@ def gen_valid(rng, CL):
     heat = rng.random() < 0.3
     entries = {}   # (section, key) -> generator of the value at level i
     if heat:   # genuine spatial coarsening: 1-d heat equation, homogeneous Dirichlet, nvars halved per level
-        top = rng.choice([0, 1])
-        entries[('problem_params', 'nvars')] = lambda i: [63, 31, 15, 7, 3][min(i + top, 4)]
+        # (7 is the smallest grid on which mesh_to_mesh can build its order-6 interpolation)
+        entries[('problem_params', 'nvars')] = lambda i: [63, 31, 15, 7][min(i, 3)]
         entries[('problem_params', 'nu')] = lambda i: rng.choice([0.1, 0.5, 1.0])
         entries[('problem_params', 'freq')] = lambda i: rng.choice([1, 2, 3])
         entries[('problem_params', 'bc')] = lambda i: 'dirichlet-zero'
@@ -237,7 +237,8 @@ def gen_valid(rng, CL):
     entries[('level_params', 'dt')] = lambda i: dtbase * (1.0 + i * 2.0 ** -20)
     entries[('level_params', 'restol')] = lambda i: rng.choice([-1.0, 1e-30])
     entries[('level_params', 'nsweeps')] = lambda i: rng.choice([1, 1, 2, 3])
-    entries[('level_params', 'residual_type')] = lambda i: rng.choice(['full_abs', 'last_abs', 'full_rel', 'last_rel'])
+    # (relative residuals divide by |u[0]|, which the 'zero' initial guess makes 0 on later steps: keep them to one step)
+    entries[('level_params', 'residual_type')] = lambda i: rng.choice(['full_abs', 'last_abs', 'full_rel', 'last_rel'] if nprocs == 1 else ['full_abs', 'last_abs'])
     entries[('level_params', 'user_note')] = lambda i: 'note%d' % rng.randint(0, 99)
     entries[('sweeper_params', 'num_nodes')] = lambda i: rng.randint(2, 4)
     entries[('sweeper_params', 'quad_type')] = lambda i: rng.choice(quads)
@@ -370,6 +371,8 @@ def faults_for(rng, base, CL):
             if sec not in d:
                 return False
             cur = d[sec].get(key, default)
+            if type(cur) is list and not cur:
+                return False
             d[sec][key] = set_at_level(cur, n, lvl, bad)
         return f
 
@@ -654,7 +657,7 @@ def compare_levels(mv, obs, reg):
                     diffs.append('level %d: %s.%s = %s, model %s' % (l, name, k, show_val(od[k]), atom_value(a, reg)[1] if a != 'ANone' else None))
         for k, a in pp:
             got = getattr(ol['prob'], k, '<missing>')
-            if k == 'nvars' and type(got) is tuple and len(got) == 1 and a != 'ANone' and a[0] == 'AInt':
+            if k in ('nvars', 'freq') and type(got) is tuple and len(set(got)) == 1 and a != 'ANone' and a[0] == 'AInt':
                 got = got[0]
             if not same(a, got, reg):
                 diffs.append('level %d: problem.%s = %s, model %s' % (l, k, show_val(got), show_val(atom_value(a, reg)[1])))
@@ -1150,6 +1153,16 @@ def part_frozen(ck, CL):
 # ----------------------------------------------------------------------------- entry
 
 def run(ck):
+    if getattr(ck, 'replay_file', None):
+        # a replay file names seed and tier of the run that produced it: the (deterministic) generators
+        # are re-run from that state, which regenerates the failing case among the others
+        import json
+        import random
+        with open(ck.replay_file) as f:
+            rep = json.load(f)
+        ck.seed, ck.tier = int(rep.get('seed', ck.seed)), rep.get('tier', ck.tier)
+        ck.rng = random.Random('%s:%d' % (ck.pid, ck.seed))
+        ck.notes.append('replay of %s: seed %d, tier %s' % (ck.replay_file, ck.seed, ck.tier))
     ck.rule = ('descriptions: grammar over per-level keys (num_nodes, quad_type, node_type, QI, initial_guess, dt, restol, nsweeps, residual_type, '
                'lambdas, u0, classes, transfer class) each as scalar / full list / short list, 1-4 levels, 1-3 steps, real classes; faults: one '
                '(or two) edits per valid description; distinct = new (fault label, levels, steps, list-shape signature); '
